@@ -191,6 +191,10 @@ func runHistory(dir string, h history) (res result) {
 			}
 			err = n.WaitReady(60 * time.Second)
 		}
+		if err == procnode.ErrPortInUse {
+			res.Inconcl = "port in use"
+			return
+		}
 		if err != nil {
 			res.Problem = "node does not become ready after recovery: " + err.Error()
 			res.Key = "recover:not-ready"
@@ -261,6 +265,10 @@ func runHistory(dir string, h history) (res result) {
 		return
 	}
 	if err := n.WaitReady(60 * time.Second); err != nil {
+		if err == procnode.ErrPortInUse {
+			res.Inconcl = "port in use"
+			return
+		}
 		res.Problem = "node does not become ready on the restart after recovery: " + err.Error()
 		res.Key = "recover:second-restart-not-ready"
 		res.LogTail = tailFile(n.LogPath, 3000)
